@@ -16,6 +16,12 @@ claimed = {
     "C11": dict(cat="exploration", ref="5.4", technique="deterministic simulation: producer flush-schedule exploration (chunk boundaries x data-event splits) with injected delivery faults against a reference array acceptor",
                 text="The same array is delivered to a fresh validator under exhaustive single/double splits (small payloads), drawn multi-chunk schedules incl. splits inside elements and characters and zero-length chunks, and fault schedules (under/over delivery, missing final chunk, chunk ending inside a character, invalid UTF-8, data after the end, wrong header, invalid media type); verdict must equal a 60-line reference acceptor written from the property statement and forwarded bytes must equal delivered bytes.",
                 note="Reference acceptor is the trusted base; MaxArraySizeBytes stays at its default (limits are C14)."),
+    "C16": dict(cat="exploration", ref="5.5", technique="deterministic simulation: seeded operation histories with injected failures (unsupported kinds, corrupt/truncated documents, limit violations, mid-operation I/O faults, producer aborts) on one long-lived instance, fresh instance as executable reference model",
+                text="Drawn histories of 2-12 operations on one reused marshaler / unmarshaler / encoder / decoder / validator(Reset), each operation also executed on a fresh instance with identical simulated reader/writer plans; compared call by call: bytes written incl. the prefix before a failure, events forwarded, value, err==nil, rejecting event; a hang of the reused instance is a deadlock/livelock violation (watchdog + goroutine-state classification).",
+                note="Each use of a generated value gets its own freshly built copy so that argument mutation (another property) cannot make the two sides see different inputs."),
+    "C17": dict(cat="exploration", ref="5.6", technique="deterministic simulation: seeded serialising scheduler over caller threads (raw-pipe hand-off invisible to the race detector, real blocking detected from goroutine state), Go race detector as per-schedule invariant, sequential execution on fresh instances as reference",
+                text="2-6 simulated caller threads, 1-3 operations each, on cold shared iterator/builder sessions or package-level state only, first use of new (also recursive and unsupported) types racing in the type caches; the tape picks the next thread at every yield point (operation boundary, reader/writer call, event, type-cache hook site). Invariants per schedule: no race report with a library frame (-race worker), no deadlock/livelock, every call's bytes/value/events/err equal the same call alone on fresh instances.",
+                note="Schedules interleave at yield points, not at every memory access (races are still detected at access granularity on each explored schedule). Porcupine is not used: operations act on separate instances, so per-call comparison is the linearizability check. Next to an error, nil and an untouched zero value are both 'nothing decoded'."),
     "C23": dict(cat="exploration", ref="5.7", technique="deterministic simulation: producer flush-schedule exploration against the whole-array delivery of the same event stream",
                 text="For generated rules-valid, array-heavy event streams the CTE encoder's output under re-chunked / re-split deliveries (element-aligned and arbitrary, inside characters, zero-length chunks, one byte per data event; optionally behind the validator) must be byte-identical to the output for whole-array delivery.",
                 note="Decides the first sentence only. The second sentence (decode+encode reproduces the text) is a pure function of the input: it is observed and counted in the evidence, not decided (two genuine decoder defects found that way were repaired; remaining differences come from non-canonical big-number source events)."),
@@ -52,8 +58,6 @@ na = {
 
 pending = {
     "C08": "check not built yet in this commit (DESIGN.md 5.2)",
-    "C16": "check not built yet in this commit (DESIGN.md 5.5)",
-    "C17": "check not built yet in this commit (DESIGN.md 5.6)",
 }
 
 def main():
